@@ -107,6 +107,7 @@ func ProfileMock(avoid map[string]string) *Profile {
 func ProfileOpenAPI(avoid map[string]string) *Profile {
 	p := ProfileFull(avoid)
 	p.Name = "openapi"
+	p.FreePaths = true
 	p.MultiFeature = false
 	p.DupShortNames = true
 	p.HostileNames = false
